@@ -63,6 +63,10 @@ def _items(rng):
             items.append({"d": kind, "vals": [_value_tree(rng) for _ in range(cnt)]})
         elif kind == "ascii":
             txt = "".join(rng.choice(ASCII_ALPHABET) for _ in range(rng.randint(1, 40)))
+            if rng.random() < 0.15:
+                # what `.text` reads as markup is plain text to `.ascii`: every character is emitted as its own byte
+                i = rng.randint(0, len(txt))
+                txt = txt[:i] + rng.choice(["[0x41]", "[0x7]", "[0xfF]", "[0x00][0x31]", "[0x", "0x10]", "[end]", "{{ a }}", "/* c */", "; c"]) + txt[i:]
             if rng.random() < 0.25:
                 # an escaped quote at the start, in the middle or as the very last character of the text
                 q = "\\'"
